@@ -35,6 +35,12 @@ func genRetranslate(rt *rapid.T) retranslateCase {
 			// other cluster, or single node): table names must follow the request's own
 			prev := c.Pool[int(spread(rt, "cloneOf")%uint64(i))]
 			e := poolEntry{Q: prev.Q, P: prev.P}
+			if chance(rt, 50, "otherWindow") {
+				// the same query for another window (early / later on the same UTC day, other day)
+				e.P = otherWindow(rt, prev.P)
+				c.Pool = append(c.Pool, e)
+				continue
+			}
 			for k := 0; k < 4 && e.P.Cluster == prev.P.Cluster && e.P.DB == prev.P.DB; k++ {
 				if prev.P.Cluster != "" && chance(rt, 60, "otherDB") {
 					for _, d := range dbNames {
@@ -171,6 +177,34 @@ func predRetranslate(c retranslateCase, o *evid.Obs) error {
 			o.Tag("rejected-query")
 		}
 	}
+	wins := map[string]map[int64]bool{}
+	for _, e := range c.Pool {
+		t := e.Q.Text() + "|" + e.P.Cluster + "/" + e.P.DB
+		if wins[t] == nil {
+			wins[t] = map[int64]bool{}
+		}
+		wins[t][e.P.FromNs] = true
+		if s := e.P.FromNs / 1e9; s >= dayStartS && s < dayStartS+1800 {
+			o.Tag("window:starts-00:00-00:30")
+		}
+	}
+	for _, m := range wins {
+		if len(m) > 1 {
+			o.Tag("same-query-other-window")
+			early, later := false, false
+			for f := range m {
+				s := f / 1e9
+				if s >= dayStartS && s < dayStartS+1800 {
+					early = true
+				} else if s >= dayStartS+1800 && s < dayStartS+86_400 {
+					later = true
+				}
+			}
+			if early && later {
+				o.Tag("same-query-early-and-later-same-day")
+			}
+		}
+	}
 	cfgs := map[string]map[string]bool{}
 	for _, e := range c.Pool {
 		switch {
@@ -236,6 +270,11 @@ func features(q querySpec) []string {
 			case refeval.KJSON, refeval.KRegexp, refeval.KLogfmt:
 				parser = true
 				out = append(out, "parser:"+s.Kind)
+				for _, p := range s.Params {
+					if strings.Contains(p.Val, "[") {
+						out = append(out, "json-array-path")
+					}
+				}
 			case refeval.KUnwrap:
 				out = append(out, "unwrap")
 			case refeval.KLabelFilter, refeval.KDrop, refeval.KLineFormat, refeval.KLabelFormat:
@@ -266,6 +305,8 @@ func features(q querySpec) []string {
 		}
 	case "prof":
 		out = append(out, "prof:"+q.Prof.Fn)
+	case "tracetags", "labels":
+		out = append(out, q.Kind+":"+q.Lookup.Fn)
 	}
 	return out
 }
